@@ -131,7 +131,7 @@ pub fn answer(req: &str) -> String {
             None => "BADREQ".into(),
         },
         "asm2" => {
-            let mut it = rest.trim().splitn(2, ' ');
+            let mut it = rest.trim().splitn(3, ' ');
             match (it.next().and_then(dec), it.next().and_then(|x| dec(x.trim()))) {
                 (Some(a), Some(b)) => format!("{} || {}", asm_answer(&a), asm_answer(&b)),
                 _ => "BADREQ".into(),
